@@ -362,6 +362,13 @@ theorem from_class_spec (n : JStr) :
     have := (validArr_iff n).mp (arr_name_complete h).1
     simp [fromClass, (startsWithBracket_iff n).mpr this]
 
+/-- `ObjClassNameSlice::get_simple_name`: "the part after the last `/`", the whole name if there is none -/
+theorem simple_name_spec (p q : JStr) (h : SLASH ∉ q) :
+    simpleName (p ++ SLASH :: q) = q ∧ simpleName q = q :=
+  ⟨simpleName_after_last p q h, simpleName_no_slash q h⟩
+
+example : simpleName (jstr "org/example/ClassName") = jstr "ClassName" := by decide
+
 /-! ## inner-class split / join (shared with C11) -/
 
 theorem split_join {s p i : JStr} (h : InnerNames.split s = some (p, i)) : InnerNames.join p i = s :=
